@@ -352,17 +352,107 @@ example : String.ofList (jsSub (fun _ => some [.ifS (.var "a") (.expr (.var "b")
       (.block [.expr (.unary .postdec (.var "c")), .throw (.bin .div (.var "c") (.var "d"))])]) {} [] false
       "if (a) b; else { c--; throw c / d }".toList) = "if(a)b;else throw c--,c/d" := by decide
 
+/-! ## the host's re-lex check (html.go 1557146) always accepts the printer's output -/
+
+/-- `script` and the bytes of its end tag (kept opaque for `simp`) -/
+def scriptName : List Char := "script".toList
+def endTagBytes : List Char := '<' :: '/' :: scriptName ++ ['>']
+
+theorem bad_lt_tail (r : List Char) (h : bad ('<' :: r) = false) :
+    Verif.Model.HtmlAttr.headIs (· = '/') (r ++ endTagBytes) = false ∧
+      (Verif.Model.Html.s "!--").isPrefixOf (r ++ endTagBytes) = false := by
+  simp only [bad, commentOpen, Bool.or_eq_false_iff] at h
+  obtain ⟨h1, h2⟩ := h
+  match r, h1, h2 with
+  | [], _, _ => exact ⟨by decide, by decide⟩
+  | [a], h1, _ =>
+    have ha : a ≠ '/' := by intro e; subst e; simp [List.isPrefixOf] at h1
+    refine ⟨by simp [Verif.Model.HtmlAttr.headIs, ha], ?_⟩
+    simp [Verif.Model.Html.s, endTagBytes, List.isPrefixOf]
+  | [a, b], h1, _ =>
+    have ha : a ≠ '/' := by intro e; subst e; simp [List.isPrefixOf] at h1
+    refine ⟨by simp [Verif.Model.HtmlAttr.headIs, ha], ?_⟩
+    simp [Verif.Model.Html.s, endTagBytes, List.isPrefixOf]
+  | a :: b :: d :: r', h1, h2 =>
+    have ha : a ≠ '/' := by intro e; subst e; simp [List.isPrefixOf] at h1
+    refine ⟨by simp [Verif.Model.HtmlAttr.headIs, ha], ?_⟩
+    simp [List.isPrefixOf] at h2
+    simp [Verif.Model.Html.s, List.isPrefixOf]
+    intro e1 e2 e3; exact h2 e1 e2 e3
+
+/-- text without `</` and `<!--` is read by the minifier's HTML lexer as the whole content of the `script` element -/
+theorem rawEnd_noBad : ∀ (l : List Char) (pos : Nat), hasBad l = false →
+    Verif.Model.Html.rawEnd scriptName 0 0 pos (l ++ endTagBytes) = pos + l.length := by
+  intro l
+  induction l with
+  | nil =>
+    intro pos _
+    have e1 : Verif.Model.HtmlAttr.headIs (· = '/') ('/' :: scriptName ++ ['>']) = true := by decide
+    have e2 : Verif.Model.Html.wordIs scriptName (('/' :: scriptName ++ ['>']).drop 1) = true := by decide
+    show Verif.Model.Html.rawEnd scriptName 0 0 pos ('<' :: ('/' :: scriptName ++ ['>'])) = pos + 0
+    rw [Verif.Model.Html.rawEnd, if_pos rfl, if_pos e1, if_pos e2]; rfl
+  | cons c r ih =>
+    intro pos h
+    simp only [hasBad, Bool.or_eq_false_iff] at h
+    have hr := ih (pos + 1) h.2
+    have hlen : pos + (c :: r).length = pos + 1 + r.length := by simp; omega
+    rw [hlen, ← hr, List.cons_append, Verif.Model.Html.rawEnd]
+    by_cases hc : c = '<'
+    · subst hc
+      obtain ⟨g1, g2⟩ := bad_lt_tail r h.1
+      rw [if_pos rfl, if_neg (by rw [g1]; simp), if_neg (by rw [g2]; simp)]
+    · rw [if_neg hc]
+
+theorem rawTextEndsAtEnd_noBad (l : List Char) (h : hasBad l = false) :
+    Verif.Model.Html.rawTextEndsAtEnd "script".toList l = true := by
+  have := rawEnd_noBad l 0 h
+  unfold Verif.Model.Html.rawTextEndsAtEnd
+  simp only [scriptName, endTagBytes, Nat.zero_add] at this
+  rw [List.append_assoc, this]
+  simp
+
+/-- the host's re-lex check never falls back to the original payload for the JS fragment printer: either the
+    printer printed (its bytes contain no `</` and no `<!--`, so the lexer reads them back as the whole content) or the
+    sub-minifier returned the payload itself -/
+theorem rawTextOut_jsSub (parse : List Char → Option (List S)) (oj : Opts) (mt data : List Char) :
+    Verif.Model.Html.rawTextOut (some (jsSub parse oj)) "script".toList mt data
+      = jsSub parse oj (Verif.Model.Html.rawMime "script".toList mt) false data := by
+  unfold Verif.Model.Html.rawTextOut
+  simp only
+  split
+  · rfl
+  · rename_i hne
+    -- then the sub-minifier returned the payload
+    unfold jsSub at hne ⊢
+    cases hp : parse data with
+    | none => rfl
+    | some prog =>
+      simp only [hp] at hne ⊢
+      cases hm : jsMinifyG oj prog with
+      | none => rfl
+      | some out =>
+        simp only [hm] at hne ⊢
+        unfold jsMinifyG at hm
+        cases ht : jsTokensG oj prog with
+        | none => simp [ht] at hm
+        | some ts =>
+          simp only [ht, Option.map, Option.some.injEq] at hm
+          subst hm
+          obtain ⟨h1, _, _, h4⟩ := jsTokensG_safe oj prog ts ht
+          have hb : hasBad (emit ts) = false := by rw [emit_eq_render]; exact no_bad_core ts {} {} true h1 h4
+          exact absurd (rawTextEndsAtEnd_noBad _ hb) hne
+
 /-! ## composition: an HTML `script` element whose payload is minified by the JS fragment printer -/
 
 /-- **HTML script element with the JS fragment printer as sub-minifier.**  For every option set of the HTML model and
     of the JS printer, every external table, every parser function (by contract: arbitrary), every model state inside a
     `script` element (`textMode = 1`) and every text token `data` without an appropriate end tag of `script` and
-    without `<!--` (the lexer contract and the guard of `html_rawtext_end_stable_partial`): the HTML model writes
+    without `<!--` (the lexer contract on the token and the script-data-escaped guard): the HTML model writes
     exactly `out = jsSub parse oj mime false data` — the output of the guarded JS statement printer on the parsed
-    payload, or the payload itself where parser or guard are undefined —, `out` contains neither an end tag of `script`
-    nor `<!--`, and a tokenizer of the HTML standard reading the content of that `script` element emits `out` as
-    character tokens byte for byte and takes the `</script>` that follows as the element's end tag.  `SubKeeps` is
-    discharged by `js_script_embed_keeps` (theorem, not contract). -/
+    payload, or the payload itself where parser or guard are undefined; the host's re-lex check (html.go 1557146) never
+    falls back to the original payload, because the printer's bytes contain no `</` at all —, `out` contains neither an
+    end tag of `script` nor `<!--`, and a tokenizer of the HTML standard reading the content of that `script` element
+    emits `out` as character tokens byte for byte and takes the `</script>` that follows as the element's end tag. -/
 theorem html_script_with_js_fragment (o : Verif.Model.Html.Opts) (ext : Verif.Model.Html.Ext)
     (parse : List Char → Option (List S)) (oj : Opts) (st : Verif.Model.Html.St) (data : List Char)
     (rest : List Verif.Model.Html.HTok) (h1 : st.dropEnd = false) (h2 : Verif.Proofs.HtmlWs.textMode st false = 1)
@@ -380,7 +470,7 @@ theorem html_script_with_js_fragment (o : Verif.Model.Html.Opts) (ext : Verif.Mo
   have hk : Verif.Proofs.C09HtmlRaw.SubKeeps st.rawTag (some (jsSub parse oj)) := by
     rw [htag]; exact js_script_embed_keeps parse oj
   obtain ⟨st', out, hstep, he, hco, hrun⟩ :=
-    Verif.Proofs.C09HtmlRaw.html_rawtext_end_stable_partial o ext (some (jsSub parse oj)) st data rest h1 h2
+    Verif.Proofs.C09HtmlRaw.html_rawtext_end_stable_subkeeps o ext (some (jsSub parse oj)) st data rest h1 h2
       (by rw [htag]; decide) hk (by rw [htag]; exact hd) (fun _ => hc)
   obtain ⟨st'', hstep'⟩ := Verif.Proofs.C09HtmlRaw.step_raw_out o ext (some (jsSub parse oj)) st data false rest h1 h2
   have hout : out = Verif.Proofs.C09HtmlRaw.rawOut (some (jsSub parse oj)) st data := by
@@ -390,7 +480,10 @@ theorem html_script_with_js_fragment (o : Verif.Model.Html.Opts) (ext : Verif.Mo
   have hraw : Verif.Proofs.C09HtmlRaw.rawOut (some (jsSub parse oj)) st data
       = jsSub parse oj (Verif.Model.Html.rawMime st.rawTag st.rawMediatype) false data := by
     have hs : Verif.Model.Html.hashIs st.rawTag "script" = true := by rw [htag]; decide
-    simp [Verif.Proofs.C09HtmlRaw.rawOut, hs, Verif.Model.Html.callSub]
+    unfold Verif.Proofs.C09HtmlRaw.rawOut
+    simp only [hs, Bool.or_true, Bool.true_or, if_true]
+    rw [htag]
+    exact rawTextOut_jsSub parse oj st.rawMediatype data
   refine ⟨st', out, hstep, hout.trans hraw, by rw [← htag]; exact he, hco htag, ?_⟩
   intro m more hm
   have := hrun m more (by rw [htag]; exact hm)
@@ -402,5 +495,9 @@ example : ({ rawTag := "script".toList } : Verif.Model.Html.St).dropEnd = false 
     Verif.Proofs.HtmlWs.textMode { rawTag := "script".toList } false = 1 ∧
     hasEndTag "script".toList "if (a) b; else { c--; throw c / d }".toList = false ∧
     hasInfix commentOpen "if (a) b; else { c--; throw c / d }".toList = false := by decide
+
+/-- the host's re-lex check is a real check: it accepts printer output and rejects text with an inner end tag -/
+example : Verif.Model.Html.rawTextEndsAtEnd "script".toList "if(a)b;else{c--;throw c/d}".toList = true ∧
+    Verif.Model.Html.rawTextEndsAtEnd "script".toList "a</script >b".toList = false := by decide
 
 end Verif.Proofs.C09JsEmbed
